@@ -149,6 +149,17 @@ def _threshold_terms(cfg, func: ast.AST, expr: ast.expr, at, depth: int = 8) -> 
         v = ix.value if isinstance(ix, ast.Constant) else None
         return v if isinstance(v, int) and not isinstance(v, bool) and v >= 0 else None
 
+    conds = _branch_conditions(cfg, func)
+
+    def feasible(df, node) -> bool:
+        """False when the definition is made under a branch condition whose opposite holds at the use (the same test on names that
+        have the same definitions at both places, outside any loop): the value cannot be the one read there"""
+        for (t, pol, ifn, pure) in conds.get(df.node, ()):
+            for (t2, pol2, ifn2, pure2) in conds.get(node, ()):
+                if t == t2 and pol != pol2 and pure and pure2 and _same_reaching(cfg, func, ifn, ifn2):
+                    return False
+        return True
+
     def go(e, node, d) -> list:
         if d == 0 or node is None:
             return [None]
@@ -173,7 +184,7 @@ def _threshold_terms(cfg, func: ast.AST, expr: ast.expr, at, depth: int = 8) -> 
                     out.append(None)
             return out
         if isinstance(e, ast.Name):
-            ds = cfg.reaching(node, e.id)
+            ds = [df for df in cfg.reaching(node, e.id) if feasible(df, node)]
             if not ds:
                 return [None]
             out = []
@@ -197,6 +208,97 @@ def _threshold_terms(cfg, func: ast.AST, expr: ast.expr, at, depth: int = 8) -> 
     if not untouched():
         return [None]
     return go(expr, at, depth)
+
+
+def _canon_test(cfg, test: ast.expr, node, depth: int = 4):
+    """(text, polarity, pure) of a branch test: `not T` and `is not` fold into the polarity, `None is x` reads `x is None`, a name
+    that is a plain copy (one reaching assignment of a name or of an element of a name at a literal index) reads as what it
+    copies; pure when the test only reads names, constants and elements at literal indices (nothing that can change between
+    two evaluations while the names keep their definitions)"""
+    pol = True
+    while isinstance(test, ast.UnaryOp) and isinstance(test.op, ast.Not):
+        test, pol = test.operand, not pol
+
+    def copy_of(e, at, d):
+        if isinstance(e, ast.Name) and d > 0 and at is not None:
+            ds = cfg.reaching(at, e.id)
+            if len(ds) == 1 and ds[0].kind == 'assign' and ds[0].value is not None:
+                v = ds[0].value
+                if isinstance(v, ast.Name) or (isinstance(v, ast.Subscript) and isinstance(v.value, ast.Name) and isinstance(v.slice, ast.Constant)):
+                    # the copied expression must mean the same at the test as at the copy
+                    names = [x.id for x in ast.walk(v) if isinstance(x, ast.Name)]
+                    if all({q.node for q in cfg.reaching(ds[0].node, nm)} == {q.node for q in cfg.reaching(at, nm)} for nm in names):
+                        return copy_of(v, ds[0].node, d - 1) if isinstance(v, ast.Name) else v
+        return e
+
+    pure = True
+    if isinstance(test, ast.Compare) and len(test.ops) == 1:
+        l, r, op = copy_of(test.left, node, depth), copy_of(test.comparators[0], node, depth), test.ops[0]
+        if isinstance(op, (ast.Is, ast.IsNot, ast.Eq, ast.NotEq)) and isinstance(l, ast.Constant) and not isinstance(r, ast.Constant):
+            l, r = r, l
+        if isinstance(op, (ast.IsNot, ast.NotEq)):
+            pol = not pol
+            op = ast.Is() if isinstance(op, ast.IsNot) else ast.Eq()
+        canon = ast.Compare(left=l, ops=[op], comparators=[r])
+    else:
+        canon = copy_of(test, node, depth)
+    if not (isinstance(canon, ast.Compare) and isinstance(canon.ops[0], (ast.Is, ast.Eq)) and isinstance(canon.comparators[0], ast.Constant)):
+        pure = False  # only a comparison with a literal: the value of a name that keeps its definition cannot change under it
+    for n in ast.walk(canon):
+        if isinstance(n, ast.Subscript):
+            if not (isinstance(n.value, ast.Name) and isinstance(n.slice, ast.Constant) and (n.value.id == 'thresholds' or not _mutated(cfg.func, n.value.id))):
+                pure = False  # (`thresholds` itself is checked never to be modified before any of this is used)
+        elif not isinstance(n, (ast.Name, ast.Constant, ast.Compare, ast.cmpop, ast.expr_context, ast.UnaryOp, ast.unaryop)):
+            pure = False
+    return unparse(canon), pol, pure, canon
+
+
+def _branch_conditions(cfg, func: ast.AST) -> dict:
+    """cfg node of a statement -> the branch conditions it is executed under: (canonical test, polarity, cfg node of the `if`,
+    pure); only `if` statements outside any loop / try / with (a branch of a loop body is taken once per iteration)"""
+    out: dict = {}
+
+    def block(body, under, plain):
+        for st in body:
+            n = cfg.node_of(st)
+            if n is not None and under:
+                out.setdefault(n, []).extend(under)
+            if isinstance(st, ast.If):
+                ifn = cfg.node_of(st)
+                if plain and ifn is not None:
+                    t, pol, pure, canon = _canon_test(cfg, st.test, ifn)
+                    names = tuple(sorted({x.id for x in ast.walk(canon) if isinstance(x, ast.Name)}))
+                    block(st.body, under + [(t, pol, (ifn, names), pure)], plain)
+                    block(st.orelse, under + [(t, not pol, (ifn, names), pure)], plain)
+                else:
+                    block(st.body, under, plain)
+                    block(st.orelse, under, plain)
+            elif isinstance(st, (ast.FunctionDef, ast.AsyncFunctionDef, ast.ClassDef)):
+                continue
+            else:
+                for fld in ('body', 'orelse', 'finalbody'):
+                    sub = getattr(st, fld, None)
+                    if isinstance(sub, list) and sub and isinstance(sub[0], ast.stmt):
+                        block(sub, under, False)
+                for h in getattr(st, 'handlers', []) or []:
+                    block(h.body, under, False)
+
+    block(func.body, [], True)
+    return out
+
+
+def _same_reaching(cfg, func: ast.AST, a, b) -> bool:
+    """the names read by the two (textually equal) tests have the same definitions at both, and the containers they index are
+    never modified in the function: the two tests have the same value"""
+    (na, names_a), (nb, names_b) = a, b
+    if names_a != names_b:
+        return False
+    for nm in names_a:
+        if {(q.node, q.kind) for q in cfg.reaching(na, nm)} != {(q.node, q.kind) for q in cfg.reaching(nb, nm)}:
+            return False
+        if any(isinstance(n, ast.Name) and n.id == nm and isinstance(n.ctx, ast.Del) for n in ast.walk(func)):
+            return False
+    return True
 
 
 def _flat_unpack(cfg, df) -> bool:
@@ -475,14 +577,23 @@ return _R
         w = ' / '.join(sorted({str(v) for v in widths if v is not None})) or unparse(wn)
         if widths and all(v is not None for v in widths):
             # every value the clipping width can have is a combination of thresholds[k]: it either is t1 - t0 or it is not
-            okw = all(sp.expand(v - (t1 - t0)) == 0 for v in widths)
-            first_by_value = okw  # max(0, min(x - t0, W)) in the closed branch, W proved to be t1 - t0
+            # (several definitions reaching on paths that are not told apart, some right and some wrong: open)
+            right = [sp.expand(v - (t1 - t0)) == 0 for v in widths]
+            okw = True if all(right) else False if not any(right) else None
+            first_by_value = okw is True  # max(0, min(x - t0, W)) in the closed branch, W proved to be t1 - t0
             ctx.add('C17.R6', 'piecewise_variables:first-width', okw, pv, 'the first segment is clipped at its own length t1 - t0' if okw
-                    else f'the first segment is clipped at {w} instead of the length thresholds[1] - thresholds[0] of the interval: with t0 != 0 the variables no longer sum to the distance from the first threshold', w, positive=True)
+                    else f'the first segment is clipped at {w} instead of the length thresholds[1] - thresholds[0] of the interval: with t0 != 0 the variables no longer sum to the distance from the first threshold', w, positive=okw is False)
         else:
             ctx.add('C17.R6', 'piecewise_variables:first-width', None, pv, f'the width {unparse(wn)} at which the first segment is clipped is not resolved to the thresholds: the form of piecewise_variables changed', w)
+    # the bound of the open first segment, by value as well
+    bo = find(pv.node, "if thresholds[0] is None:\n    ___\n    _R = [bioMin(variable, __W0)]\nelse:\n    ___")
+    open_by_value = False
+    if bo is not None and bw is not None:
+        w0 = bo['__W0'][1]
+        vals = _threshold_terms(cpv, pv.node, w0, cpv.node_of(w0))
+        open_by_value = bool(vals) and all(v is not None and sp.expand(v - t1) == 0 for v in vals)
     for what, pat in parts.items():
-        ok = (has(pv.node, pat) or (what == 'first' and first_by_value)) and nlen is not None
+        ok = (has(pv.node, pat) or (what == 'first' and first_by_value) or (what == 'first-open' and open_by_value)) and nlen is not None
         ctx.add('C17.R6', f'piecewise_variables:{what}', ok, pv, f'{what} segment is max(0, min(x - t_i, t_i+1 - t_i)) (open ends handled)' if ok else f'the {what} segment of piecewise_variables changed', what)
     b = None
     for names in (('_B', '_B', '_B'), ('_B1', '_B2', '_B3'), ('_B1', '_B', '_B'), ('_B', '_B2', '_B'), ('_B', '_B', '_B3')):
@@ -491,6 +602,9 @@ return _R
         # the width of the first segment is not a temporary of its own but has been proved above to be t1 - t0
         BYVAL = ORDER.replace("    _B1 = thresholds[1] - thresholds[0]\n", "    ___\n").replace(SEG.format(lo='0', w='_B1'), SEG.format(lo='0', w='__W'))
         b = find(pv.node, BYVAL.replace('_B2', '_B').replace('_B3', '_B')) or find(pv.node, BYVAL)
+        if b is None and open_by_value:
+            BYVAL = BYVAL.replace("    _R = [bioMin(variable, thresholds[1])]\n", "    ___\n    _R = [bioMin(variable, __W0)]\n")
+            b = find(pv.node, BYVAL.replace('_B2', '_B').replace('_B3', '_B')) or find(pv.node, BYVAL)
     ok = b is not None and nlen is not None and b['_N'] == nlen['_N']
     ctx.add('C17.R6', 'piecewise_variables:order', ok, pv, 'first, middle (1 .. n-3) and last segments are appended in this order to the returned list' if ok else 'the segments of piecewise_variables are no longer assembled first / middle / last into the returned list', 'order')
     pf = prog.func('models.piecewise', 'piecewise_formula')
